@@ -378,6 +378,10 @@ pub enum Kind {
 	CtlRemine,
 	/// child of the accepted CtlTimestamp fork header, difficulty/scaling/prev_root from the reference over its own ancestors
 	ForkChild,
+	/// sync chunk [true header t, x] where x names the (later-dated) fork header as its parent and is dated
+	/// exactly like that parent: not later than the parent it names, but later than the header that
+	/// precedes it in the chunk — every rule is judged against the named parent, not the neighbour
+	SyncUnlinkedChunkTsOfNamedParent,
 }
 
 #[derive(Clone, Copy, Debug, PartialEq, Eq, Hash, Serialize, Deserialize)]
@@ -887,6 +891,14 @@ pub fn check_a(ctx: &Ctx, case: &CaseA, counting: bool, at: &mut Option<Only>) -
 				w.stage = 2;
 				w.paths = Some(vec![Path::Header, Path::Sync]);
 				ms.push(w);
+			}
+			if c.timestamp > t.timestamp {
+				let bogus = child_of(&a, &template, 0, None)?;
+				let mut u = Mutant::new(Kind::SyncUnlinkedChunkTsOfNamedParent, true, bogus, false);
+				u.stage = 2;
+				u.paths = Some(vec![Path::Sync]);
+				u.pre = vec![t.clone()];
+				ms.push(u);
 			}
 			let ok = ref_pow_ok(&good, own as u64);
 			let mut m = Mutant::new(Kind::ForkChild, true, good, ok);
